@@ -17,7 +17,7 @@ RULE = ('case = block of load/unload histories (exhaustive enumeration by index)
         'checked; non-trivial history = at least one unload followed by a load, or two loaded keys sharing an alias; distinct = distinct histories '
         '(digest of the operation sequence); the evidence also reports distinct abstract index states (multiset of loaded objects) visited')
 ASSUMPTIONS = ['identifiers are computed from public attributes of the key objects (fingerprint, userids)']
-MIN_COUNTERS = {'quick': {'histories': 100000, 'steps_checked': 150000, 'selections_checked': 2000000, 'walk_steps': 300},
+MIN_COUNTERS = {'quick': {'histories': 90000, 'steps_checked': 150000, 'selections_checked': 2000000, 'walk_steps': 300},
                 'thorough': {'histories': 1000000}}
 BUDGET = {'quick': (260, 800), 'thorough': (2400, 3600)}
 TECHNIQUE = 'runtime monitoring: bounded-exhaustive history enumeration + random walks against a shadow model; invariants checked after every step'
